@@ -25,6 +25,8 @@ pub enum HostileOp {
     Store(crate::store::StOp),
     /// call of one exported function of the foreign-language bindings (C06 binding runs)
     Bind(crate::checks::bind::BindCall),
+    /// operation of the multi-device runs (C03)
+    Multi(crate::checks::multidev::MdOp),
     /// member encrypts a rumor it forged. mode: 0 foreign pubkey (victim), 1 preset id = existing
     /// message of another author (victim_msg), 2 preset id = own earlier message, 3 wrong hash id,
     /// 4 honest-looking but arbitrary kind/tags/created_at
@@ -62,6 +64,7 @@ pub fn short(h: &HostileOp) -> &'static str {
         HostileOp::Placeholder => "placeholder",
         HostileOp::Store(_) => "store",
         HostileOp::Bind(_) => "bind",
+        HostileOp::Multi(_) => "multidev",
         HostileOp::ForgedRumor { .. } => "forged_rumor",
         HostileOp::Rewrap { .. } => "rewrap",
         HostileOp::CraftedCommit { .. } => "crafted_commit",
@@ -338,7 +341,7 @@ fn publish(w: &mut World, step: &Step, node: usize, g: usize, event: Event, kind
 pub fn exec(w: &mut World, step: &Step, h: HostileOp) -> Outcome {
     let node = step.node;
     match h {
-        HostileOp::Placeholder | HostileOp::Store(_) | HostileOp::Bind(_) => o("skipped", "n/a"),
+        HostileOp::Placeholder | HostileOp::Store(_) | HostileOp::Bind(_) | HostileOp::Multi(_) => o("skipped", "n/a"),
         HostileOp::ForgedRumor { g, mode, victim, victim_msg, tag } => {
             let Some(gid) = w.gid(g) else { return o("skipped", "no group") };
             let own_pk = w.nodes[node].pubkey();
